@@ -2173,9 +2173,22 @@ void _vnaproperty_free_tree(vnaproperty_t **rootptr)
  */
 int vnaproperty_copy(vnaproperty_t **destination, const vnaproperty_t *source)
 {
+    vnaproperty_t *copy = NULL;
+
+    /*
+     * Build the copy before releasing the old content of destination:
+     * source may lie inside of *destination or contain it.
+     */
+    if (dfs_copy(&copy, source) == -1) {
+	int saved_errno = errno;
+
+	vnaproperty_free(copy);
+	errno = saved_errno;
+	return -1;
+    }
     vnaproperty_free(*destination);
-    *destination = NULL;
-    return dfs_copy(destination, source);
+    *destination = copy;
+    return 0;
 }
 
 
